@@ -748,7 +748,7 @@ pub fn permille_witness(ctx: &Ctx) -> String {
         for i in 0..400u64 {
             let a = c.send(&Op::Put(B::Hex(i.to_le_bytes().to_vec()), B::Pat(1000, i)).text());
             if a != "ok" {
-                res = if a == "child-dead" { "hang".into() } else { a };
+                res = if a == "child-dead" || a.starts_with("HANG") { "hang".into() } else { a };
                 break;
             }
         }
